@@ -775,7 +775,7 @@ Section Wiring.
                    w_ss x' = w_ss y' /\ w_tt x' = w_tt y' /\ w_idle x' = w_idle y').
         { clear. induction b as [|[c v] b IHb]; intros d d' x y Ha Hb Hc; cbn [apply_writes fst].
           - now repeat split.
-          - apply IHb; destruct c; cbn; assumption. }
+          - apply IHb; destruct c; cbn; first [assumption | reflexivity]. }
         destruct (Hgen b' [] [] st1 w H1 H2 H3) as (G1 & G2 & G3). cbn in G1, G2, G3. now rewrite G1, G2, G3.
   Qed.
 
@@ -798,11 +798,10 @@ Section Wiring.
 
   Lemma sysinv_init n : sysinv n (sys_init n).
   Proof.
-    unfold sysinv, sys_init; cbn. repeat split.
-    - apply repeat_length.
-    - apply Forall_forall. intros w Hw. apply repeat_spec in Hw. subst. apply winv_init.
-    - apply minv_init.
-    - now rewrite map_repeat.
+    unfold sysinv, sys_init; cbn [s_cpus s_sort].
+    split; [apply repeat_length|]. split.
+    { apply Forall_forall. intros w Hw. apply repeat_spec in Hw. subst. apply winv_init. }
+    split; [apply minv_init|]. cbn. now rewrite map_repeat.
   Qed.
 
   Lemma Forall_upd {A} (P : A -> Prop) (l : list A) : forall i x, Forall P l -> P x -> Forall P (upd i x l).
@@ -827,11 +826,9 @@ Section Wiring.
       destruct (step_ok n (s_sort s) i (VInt (w_sval w')) Hm Hi) as (sm' & ws & Hstep & Hm' & Hv' & _).
       rewrite Hstep in *.
       apply IH; [|exact Hrest].
-      unfold sysinv; cbn [s_cpus s_sort]. repeat split.
-      + now rewrite upd_length.
-      + now apply Forall_upd.
-      + exact Hm'.
-      + rewrite Hv', Hvals. cbn [to_i64]. symmetry. apply upd_map.
+      unfold sysinv; cbn [s_cpus s_sort].
+      split; [now rewrite upd_length|]. split; [now apply Forall_upd|]. split; [exact Hm'|].
+      rewrite Hv', Hvals. cbn [to_i64]. symmetry. apply upd_map.
   Qed.
 
   Theorem system_rows n h :
@@ -909,3 +906,21 @@ Lemma wiring_order_needed :
                   [(CIDLE, VInt 100); (CSS, VInt 7)] ] = Some st' /\
               w_tri st' = VInt 7 /\ w_sval st' = 6 /\ bd_of 11 2 100 st' = 7.
 Proof. eexists. split; [vm_compute; reflexivity|]. vm_compute. repeat split. Qed.
+
+Lemma jump_harmless_sorted a old new :
+  Sorted Z.le a -> sort_replace a old new = sort_replace_nojump a old new.
+Proof. intros H. apply jump_harmless. now apply sorted_ss. Qed.
+
+(* an event sequence the emulator produces for one CPU and that satisfies batch_ok throughout *)
+(* an admissible nOS-V history: OHx; VHw; VTx; VAp; VTp; VTr; VAP; VPr; VPp; VTe *)
+Definition ex_history : list (list (cin * value)) :=
+  [ [(CTT, VNull); (CSS, VNull); (CIDLE, VInt 100)];
+    [(CSS, VInt 28)];
+    [(CSS, VInt 11); (CTT, VInt 77)];
+    [(CSS, VInt 15)];
+    [(CTT, VNull)];
+    [(CTT, VInt 77)];
+    [(CSS, VInt 11)];
+    [(CIDLE, VInt 101)];
+    [(CIDLE, VInt 100)];
+    [(CSS, VInt 28); (CTT, VNull)] ].
